@@ -432,6 +432,12 @@ KnownMcPull(i, op) ==
     [] i = 5 -> op.a = "pullup" /\ op.b = 1 /\ op.n = -1
     [] OTHER -> FALSE
 
+KnownCyc(i, op) ==
+  CASE i = 0 -> op.a = "addref" /\ op.b = 1
+    [] i = 1 -> op.a = "addbufref" /\ op.b = 2 /\ op.s = 1
+    [] i = 2 -> op.a = "addbuf" /\ op.b = 1 /\ op.s = 2
+    [] OTHER -> FALSE
+
 (* growth bound and de-duplication of no-op instances *)
 OpSane(S, op) ==
   /\ (op.a \in {"add", "addref", "prepend", "printf", "rescommit"} => Fits(S, op.b, op.d))
@@ -453,6 +459,7 @@ OpSane(S, op) ==
   \* multicast-pullup-shared-memory); its canonical history is generated under "mcpull" \in Acts
   /\ (op.a = "pullup" /\ S.mcu => "mcpull" \in Acts)
   /\ ("mcpull" \in Acts => KnownMcPull(Len(hist), op))
+  /\ ("cyc" \in Acts => KnownCyc(Len(hist), op))
   /\ (op.a = "evread" => Fits(S, op.b, S.fdin \o op.d) /\ Bytes(S.fdin \o op.d) <= 4096 /\ (op.e # 0 => op.k = -1))
   /\ (op.a \in {"evwrite", "sfwrite"} => (op.e # 0 => op.k = -1))
   \* AvoidKnown: evbuffer_write_sendfile ignores howmuch (finding sendfile-ignores-howmuch): only generate
